@@ -56,5 +56,9 @@ Example C24_nonvacuous :
   effects (handle e p (RMetadata [b])) = [] /\
   handle e p (RCreateTopics [b]) = [((0, b), Denied 29)] /\
   handle e p (RJoinGroup b) = [((0, b), Denied 30)] /\
+  (* Fetch v13 addresses topics by ID with an empty name: the decision is taken on the name
+     the ID resolves to, not on the (empty) wire name *)
+  handle e (fun act res n => match n with [] => true | _ => false end) (RFetch [ById (Some b); ByName []; ById None]) =
+    [((0, b), Denied 29); ((0, []), Proceeds); ((-1, []), Harmless)] /\
   handle e p (RDescribeConfigs [(4, [])]) = [((4, []), Denied 31)].
 Proof. vm_compute. repeat split. Qed.
